@@ -16,9 +16,10 @@ def decOptName (f : String) : Option (Option Name) :=
 
 /-- the codecs the driver can run itself (every other codec is run by the harness, as the abstract `Codec`) -/
 def leanCodecs : Env where
+  isUtf8 n := Generated.Encoding.utf8Aliases.contains n
   codecOf n :=
     let s := String.ofList n
-    if s ∈ ["utf-8", "utf8", "UTF-8", "utf_8", "Utf-8"] then some utf8Codec
+    if Generated.Encoding.utf8Aliases.contains n then some utf8Codec
     else if s ∈ ["latin-1", "latin1", "iso-8859-1", "LATIN-1"] then some latin1Codec
     else if s ∈ ["ascii", "us-ascii", "ASCII"] then some asciiCodec
     else none
@@ -65,9 +66,16 @@ def handle : Handler
   | ["u8i", b] => do let b ← decBytes b; pure (encStr (utf8Ignore b))
   | ["u8s", b] => do let b ← decBytes b; pure (encOpt (fun t => "some " ++ encStr t) (utf8Strict b))
   | ["u8e", t] => do let t ← decStr t; pure (encOpt encBytes (utf8Codec.enc t))
-  | ["choose", b, k] => do
-      let b ← decBytes b; let k ← decOptName k
-      pure (match chooseBytes b k with
+  | ["bomsniff", b] => do
+      let b ← decBytes b
+      pure (match stripBom b with
+            | some r => encOpt encStr (sniff r)
+            | none => "none")
+  | ["ascii", t] => do let t ← decStr t; pure (encStr (pyAscii t))
+  | ["choose", b, k, u8] => do
+      -- `u8`: the registry's answer `_is_utf8(name)` for the comment found behind a BOM (given by the harness)
+      let b ← decBytes b; let k ← decOptName k; let u8 ← decBool u8
+      pure (match chooseBytes ⟨fun _ => none, fun _ => u8⟩ b k with
             | .error e => errStr e
             | .ok (n, r) => "ok " ++ encStr n ++ " " ++ encBool (r.length != b.length))
   | ["strenc", t, k] => do let t ← decStr t; let k ← decOptName k; pure (encStr (chooseStr t k))
